@@ -77,6 +77,11 @@ CLAIMED = {
         "Decides sentence 2 of the property (the checked-in emulator is what the C generator produces) for the 186 straight-line C rules, and that every opcode of the sys table has a C rule. Rules with branches are covered by C03-D1b only as far as their subscripts go. Value equivalence of compiled C and emulation is not decided.",
         "Trusted: clang AST; name placeholders as produced by c_get_name_int/float.",
         "DESIGN.md §4 C04"),
+    "C07": (
+        "sibling agreement of the emitter functions of tools/orcc.c (ordered variable classes, per-class extras, n/m conditions from must-facts), name-table/enum agreement across three copies, constant evaluation of the 64-bit high-half slot distance; thorough tier: generated-source analysis — orcc built from the tree is run on a corpus in all modes and every output is type-checked with clang -fsyntax-only",
+        "Decides that prototype, .backup call emitters and executor fill-in of orcc describe the same C interface, that the variable name tables match the ORC_VAR_* enumeration without duplicates in all copies, and that writer and readers of the high half of 64-bit parameters use the same slot. Thorough: 400+ generated implementation/header pairs (test.orc, orcfunctions.orc, examples, seven synthetic feature files) x {inline, lazy-init, no-backup, compat} x {JIT, DISABLE_ORC} type-check. Run-time results in the four modes and orc_memcpy/orc_memset behaviour are not decided.",
+        "Trusted: clang type checker; the corpus covers the feature classes listed in rules/c07.py (the clause is decided for those inputs only). The thorough tier executes the generator (as the build does), never the generated functions.",
+        "DESIGN.md §4 C07"),
 }
 
 NOT_YET = "check under construction in this round; not claimed until its rules are exact on the current tree"
